@@ -68,6 +68,50 @@ def sec_summary(lib, key, names):
     return r.psd_arg_stores
 
 
+def confirm_on_skeleton(lib, f, names, p1, call_handler, pboff):
+    """(reproduced?, number of concrete paths replayed)"""
+    import lenrun
+    lens = list(range(1, 81)) + [16 * k + r for k in (5, 7, 8, 9, 12, 15, 16, 17, 24, 31, 32, 33, 40, 47, 48, 49, 50, 64, 65) for r in (0, 1, 15)]
+    if "cbc" in f.name.lower():
+        lens = list(range(16, 641, 16))
+    elif "XTS" in f.name:
+        lens = list(range(16, 300))
+    pbs = (0, 8) if "_update_" in f.name else (0,)
+    npaths = 0
+    for PB in pbs:
+        for L in lens:
+            entry = {}
+            sargs = {}
+            for k, nm in enumerate(names or []):
+                if nm is None:
+                    continue
+                isptr = nm not in ("len", "len_bytes", "N", "aad_len", "auth_tag_len")
+                v = ("p", nm, 0) if isptr else (L if nm in ("len", "len_bytes", "N") else 16 if nm == "auth_tag_len" else 20)
+                if k < 6:
+                    entry[ARGROOTS[k]] = v
+                else:
+                    sargs[8 + 8 * (k - 6)] = v
+
+            def hook(i, a, size, _pb=PB):
+                if a[0] == "p" and a[1] == "sp" and a[2] in sargs and size == 8:
+                    return sargs[a[2]]
+                if a[0] == "p" and a[1] == "context_data" and a[2] == pboff and size == 8:
+                    return _pb
+                return None
+            m = lenrun.Machine(lib, f, entry, mem_hook=hook)
+            m.record_paths = True
+            rr = m.run()
+            for path in getattr(rr, "paths", []) or []:
+                npaths += 1
+                si = secrecy.SecInterp(lib, f, p1, make_role(names), call_handler=call_handler)
+                st = ({r_: secrecy.CONST for r_ in x86.G64}, {}, {})
+                for n_, b in enumerate(path):
+                    si.block(b, st, n_ == len(path) - 1)
+                if si.res.stack_findings:
+                    return True, npaths
+    return False, npaths
+
+
 def worker(lib, objname, extra):
     cand_roles = extra["cand_roles"]      # function name -> (iface, [role names])
     iface_roles = extra["iface_roles"]
@@ -149,6 +193,19 @@ def worker(lib, objname, extra):
             regs.setdefault(rn, (i, kind))
         for rn, (i, kind) in regs.items():
             add("R14.1", name, rn, "%s still holds purely key-derived data at %s `%s` (no clearing write on some path)" % (rn, kind, i.text.strip()), i.addr, key[1])
+        if r.stack_findings and is_cand and not is_c:
+            # The fixpoint joins paths.  An own-frame report is kept only if it is reproduced on a concrete path: the
+            # length skeleton (lib/lenrun.py) supplies, for a dense grid of lengths, the block sequence each length
+            # selects, and the same transfer functions are run along it without joins.  (The GCM bodies have two
+            # correlated tests - "the next eight counter blocks are prepared unless fewer than 128 bytes remain" and
+            # "the eight-block loop is entered only if 128 or more remain" - whose contradictory combination parks
+            # whatever xmm1-xmm8 last held.)
+            confirmed, npaths = confirm_on_skeleton(lib, f, names, p1, call_handler, extra.get("pblock_off", 80))
+            out["skeleton_paths"] = out.get("skeleton_paths", 0) + npaths
+            if npaths and not confirmed:
+                out["unconfirmed"] = out.get("unconfirmed", 0) + 1
+                out.setdefault("unconfirmed_names", []).append(name)
+                r.stack_findings = []
         if r.stack_findings:
             i, kind, bad = r.stack_findings[0]
             allbad = sorted({b for (_i, _k, bl) in r.stack_findings for b in bl}, key=repr)
